@@ -113,7 +113,11 @@ func (r *DefaultReader) acquireSlow(n int) int {
 		if n <= len(r.buf)-r.ri {
 			return n
 		}
+		if m > 0 {
+			i = -1 // progress was made, only consecutive empty reads count
+		}
 	}
+	r.err = io.ErrNoProgress
 	return len(r.buf) - r.ri
 }
 
